@@ -660,6 +660,7 @@ func (c *Ctx) decodeStore(f *FA, x *bvCtx, t *recTable, fk string, val ssa.Value
 				}
 				facts := f.FactsAt(ap.Block())
 				lo, hi = f.pin(lo, facts), f.pin(hi, facts)
+				hi = f.lengthSpelledEnd(lo, hi, facts)
 				seg := segRow{Field: fk, LoLF: lo, HiLF: hi, Open: open, Cond: cond, Pos: pos, Lo: c.symOffset(f, x, lo), Hi: c.symOffset(f, x, hi)}
 				if open {
 					seg.Hi = "end"
@@ -728,6 +729,53 @@ func (c *Ctx) decodeStore(f *FA, x *bvCtx, t *recTable, fk string, val ssa.Value
 func (c *Ctx) isDecodeMethodName(n string) bool { return n == "Unmarshal" || n == "unmarshal" }
 
 // pin substitutes atoms whose value is fixed by the facts.
+// lengthSpelledEnd: a segment [lo : E] whose end E is a single quantity (the record's own length) while a
+// dominating equality says E = lo + n for another quantity n (the value's length field, checked against the
+// record length) is the segment [lo : lo + n]: the end is spelled by the length, the form encoders and the
+// reference tables use.
+func (f *FA) lengthSpelledEnd(lo, hi LF, facts []Fact) LF {
+	if !lo.isConst() || hi.C != 0 || len(hi.T) != 1 {
+		return hi
+	}
+	var e int
+	for a, k := range hi.T {
+		if k != 1 {
+			return hi
+		}
+		e = a
+	}
+	for i, p := range facts {
+		if p.NE {
+			continue
+		}
+		for j, q := range facts {
+			if i == j || q.NE || q.L.key() != p.L.scale(-1).key() {
+				continue
+			}
+			// p.L == 0: solve for e
+			k, has := p.L.T[e]
+			if !has || (k != 1 && k != -1) {
+				continue
+			}
+			rest := LF{C: p.L.C, T: map[int]int64{}}
+			for a, v := range p.L.T {
+				if a != e {
+					rest.T[a] = v
+				}
+			}
+			sol := rest.scale(-k) // e = -rest/k
+			if sol.C == lo.C && len(sol.T) == 1 {
+				for _, v := range sol.T {
+					if v == 1 {
+						return sol
+					}
+				}
+			}
+		}
+	}
+	return hi
+}
+
 func (f *FA) pin(l LF, facts []Fact) LF {
 	e := f.refine(facts)
 	out := konst(l.C)
